@@ -136,6 +136,10 @@ def st_case(draw):
         spec = draw(zp.st_cubic1t(delta_range=(0.1, 0.9)))
         nf = 1
     spec = dict(spec)
+    if draw(st.integers(0, 3)) == 0:
+        # the user types the nucleation temperature as an integer (PhaseInfo(temperature=100)); detonations hand it on
+        # unchanged as T+ (round-4 seed: profile array allocated with the dtype of T+)
+        spec["Tn_int"] = True
     spec["particles"] = draw(st_particles(nf))
     npart = len(spec["particles"])
     walls = []
@@ -284,6 +288,9 @@ def check_case(case) -> Verdict:
             v.label(f"hydro:{wall['branch']}:no-solution")
             continue
         vp, vm = float(rec["out"][0]), float(rec["out"][1])
+        # what EOM.wallPressure hands to findPlasmaProfile: the values of findHydroBoundaries AS RETURNED (for an
+        # integer-typed Tn a detonation's T+ is a Python int); the oracle itself works with floats
+        raw_args = (c1, c2, vmid, Tp, Tm)
         c1, c2, Tp, Tm, vmid = float(c1), float(c2), float(Tp), float(Tm), float(vmid)
         if not all(map(math.isfinite, (c1, c2, Tp, Tm, vmid, vp, vm))):
             v.label(f"hydro:{wall['branch']}:non-finite")
@@ -361,7 +368,8 @@ def check_case(case) -> Verdict:
             polys = {k: WallGo.Polynomial(vals[k].copy(), eom.grid, direction=("Array", "z"),
                                           basis=("Array", "Cardinal")) for k in vals}
             D = BoltzmannDeltas(Delta00=polys["D00"], Delta02=polys["D02"], Delta20=polys["D20"], Delta11=polys["D11"])
-            Tprof, vprof = eom.findPlasmaProfile(c1, c2, vmid, fields, dfields, D, Tp, Tm)[:2]
+            Tprof, vprof = eom.findPlasmaProfile(raw_args[0], raw_args[1], raw_args[2], fields, dfields, D,
+                                                 raw_args[3], raw_args[4])[:2]
             Tprof, vprof = np.asarray(Tprof, dtype=float), np.asarray(vprof, dtype=float)
             success = bool(eom.successTemperatureProfile)
             slab = shape_label(widths * Tn)
